@@ -69,6 +69,8 @@ type ckConfig struct {
 	// SSO mode only: the ingresses of an SSO PROXY deployed in front of an application on the same SSO domain, relaying to this
 	// SSO server (not part of tokens(): named on the cpscript lines that use it)
 	proxyIngresses []string
+	// auto-login on the wildcard route (retryloc only; not part of tokens(): the cookie model has no wildcard route)
+	autoLogin bool
 }
 
 // Model flags (lib/code_flags.json): which variant of the code under test the Coq model has to follow.
@@ -116,7 +118,7 @@ func (c ckConfig) stackOpts() stackOpts {
 	rl := &config.RateLimit{Enabled: c.rl, Logins: c.logins, Window: c.window}
 	return stackOpts{maxLifetime: 10 * time.Hour, par: true, ingresses: c.ingresses, rateLimit: rl, legacyCookie: c.legacy,
 		sso: c.sso, cookieSecure: c.secure, cookieSameSite: c.sameSite, cookiePrefix: c.prefix, ssoDomain: c.domain,
-		ssoCookieName: c.name, ssoDefaultTarget: "https://app.example.com/", proxyIngresses: c.proxyIngresses, ssoServerURL: c.serverURL()}
+		ssoCookieName: c.name, ssoDefaultTarget: "https://app.example.com/", proxyIngresses: c.proxyIngresses, ssoServerURL: c.serverURL(), autoLogin: c.autoLogin}
 }
 
 // serverURL: sso.server-url of the proxy = the SSO server's first ingress
@@ -694,6 +696,63 @@ func probesFor(cfg ckConfig) []ckOrigin {
 			}
 		}
 	}
+	// an endpoint below a root ingress: where a cookie set WITHOUT a Path attribute by an endpoint response lives (default-path
+	// /oauth2), invisible at "/" (appended so that the positions of the probes above stay as they were)
+	for _, p := range allPaths(cfg) {
+		if p == "" {
+			for _, h := range hosts {
+				for _, https := range []bool{false, true} {
+					out = append(out, ckOrigin{https, h, "/oauth2/session"})
+				}
+			}
+		}
+	}
+	return out
+}
+
+// failureScripts: CONSECUTIVE failures of one endpoint by one cause, request by request (so that every Set-Cookie header of
+// every answer is recorded, not only the status chain), until the terminal error page, then the same request succeeding.
+// Login fails at the pushed authorization request, the callback at the token endpoint or when the session is written (each
+// attempt after a fresh, successful login start, as the automatic retry produces it), logout / local logout when the session
+// is looked up. Ends with what clears the counter (successful callback / logout callback) where there is such a thing.
+func failureScripts(cfg ckConfig) []ckScript {
+	var out []ckScript
+	probes := probesFor(cfg)
+	for _, h := range hostsOf(cfg) {
+		add := func(items ...ckItem) {
+			out = append(out, ckScript{cfg: cfg, https: h.https, hostport: h.hostport, probes: probes, items: items})
+		}
+		for _, p := range h.paths {
+			o := p + "/oauth2"
+			login := []ckItem{req("L", o+"/login", "n"), req("C", o+"/callback", "n")}
+			for _, c := range append([]string{"e500"}, loginCauses...) {
+				items := []ckItem{req("L", o+"/login", c), req("L", o+"/login", c), req("L", o+"/login", c), req("L", o+"/login", c)}
+				add(append(items, login...)...)
+			}
+			for _, c := range append([]string{"e500", "e401"}, callbackCauses...) {
+				var items []ckItem
+				for i := 0; i < 4; i++ {
+					items = append(items, req("L", o+"/login", "n"), req("C", o+"/callback", c))
+				}
+				add(append(items, login...)...)
+			}
+			for _, c := range storeCauses {
+				if cfg.secure && !h.https {
+					break // the browser never returns a Secure session cookie over plain http: there is no session to look up
+				}
+				items := append([]ckItem{}, login...)
+				for i := 0; i < 4; i++ {
+					items = append(items, req("K", o+"/logout/local", c))
+				}
+				add(append(items, req("K", o+"/logout/local", "n"))...)
+				items = append([]ckItem{}, login...)
+				for i := 0; i < 4; i++ {
+					items = append(items, req("O", o+"/logout", c))
+				}
+				add(append(items, req("O", o+"/logout", "n"), req("B", o+"/logout/callback", "n"))...)
+			}
+		}
+	}
 	return out
 }
 
@@ -1251,6 +1310,124 @@ func runCookies(args []string) error {
 	sort.Strings(keys)
 	for _, k := range keys {
 		fmt.Fprintf(os.Stderr, "cookies: %s=%d\n", k, counts[k])
+	}
+	return nil
+}
+
+// ---------------------------------------------------------------- SSO deployments on their own (C16: cookie scope, C05: the browser after a logout)
+
+func init() {
+	register("ssocookies", "C16/C05: browser histories of SSO deployments (the SSO server alone and with an SSO proxy in front of an application): "+
+		"Set-Cookie headers of every answer, consecutive failures of every endpoint by every cause, browser-followed retry chains, jar contents", runSSOCookies)
+}
+
+// ssoDeployment: an SSO-server configuration and which script families run under it
+type ssoDeployment struct {
+	cfg       ckConfig
+	histories bool // scriptsFor + proxyScriptsFor (the configurations of the cookie driver)
+	chains    bool // chainScripts (the configurations of the retry driver)
+}
+
+// ssoDeployments: the SSO-server configurations of the cookie (ckConfigs) and retry-chain (retryChainConfigs) drivers; the quick
+// tier keeps one configuration per same-site value / domain spelling of the former
+func ssoDeployments(tier string) []ssoDeployment {
+	var out []ssoDeployment
+	k := 0
+	for _, c := range ckConfigs(tier) {
+		if !c.sso {
+			continue
+		}
+		k++
+		if tier != "thorough" && k <= 6 && k%2 == 0 {
+			continue
+		}
+		out = append(out, ssoDeployment{cfg: c, histories: true})
+	}
+	for _, c := range retryChainConfigs() {
+		if c.sso {
+			c.rl = false
+			out = append(out, ssoDeployment{cfg: c, chains: true})
+		}
+	}
+	return out
+}
+
+func runSSOCookies(args []string) error {
+	fs := flag.NewFlagSet("ssocookies", flag.ExitOnError)
+	out := fs.String("out", "ssocookies", "output prefix")
+	seed := fs.Int64("seed", 1, "PRNG seed")
+	tier := fs.String("tier", "quick", "quick|thorough")
+	chains := fs.Bool("chains", true, "also the browser-followed retry chains (retry.go chainScripts)")
+	standalone := fs.Bool("with-standalone", false, "also standalone deployments with one ingress (logouts at an ordinary instance)")
+	ckModelFlags(fs)
+	fs.Parse(args)
+	rng := rand.New(rand.NewSource(*seed))
+	fin, err := os.Create(*out + ".in")
+	if err != nil {
+		return err
+	}
+	defer fin.Close()
+	fimpl, err := os.Create(*out + ".impl")
+	if err != nil {
+		return err
+	}
+	defer fimpl.Close()
+	win, wimpl := bufio.NewWriter(fin), bufio.NewWriter(fimpl)
+	defer win.Flush()
+	defer wimpl.Flush()
+	nrandom := 6
+	if *tier == "thorough" {
+		nrandom = 60
+	}
+	deps := ssoDeployments(*tier)
+	if *standalone {
+		for _, c := range ckConfigs(*tier) {
+			if !c.sso && len(c.ingresses) == 1 && !c.rl && c.sameSite == "Lax" {
+				deps = append(deps, ssoDeployment{cfg: c, histories: true})
+			}
+		}
+	}
+	counts := map[string]int{}
+	for _, d := range deps {
+		cfg := d.cfg
+		if d.chains && !*chains {
+			continue
+		}
+		var scripts []ckScript
+		if d.histories {
+			scripts = scriptsFor(cfg, rng, nrandom)
+			counts["histories"] += len(scripts)
+			px := proxyScriptsFor(cfg, rng, nrandom/2)
+			counts["histories-through-sso-proxy"] += len(px)
+			scripts = append(scripts, px...)
+		}
+		fl := failureScripts(cfg)
+		counts["consecutive-failure-histories"] += len(fl)
+		scripts = append(scripts, fl...)
+		if d.chains {
+			ch := chainScripts(cfg, rng, 2)
+			counts["retry-chains"] += len(ch)
+			scripts = append(scripts, ch...)
+		}
+		t0 := time.Now()
+		if _, err := runScripts(cfg, scripts, win, wimpl); err != nil {
+			return err
+		}
+		if os.Getenv("WWH_TIMING") != "" {
+			fmt.Fprintf(os.Stderr, "ssocookies: %v %d scripts %v\n", cfg.ingresses, len(scripts), time.Since(t0))
+		}
+		counts["configurations"]++
+		if cfg.sso {
+			counts["sso-server-configurations"]++
+		}
+	}
+	keys := make([]string, 0, len(counts))
+	for k := range counts {
+		keys = append(keys, k)
+	}
+	sort.Strings(keys)
+	for _, k := range keys {
+		fmt.Fprintf(os.Stderr, "ssocookies: %s=%d\n", k, counts[k])
 	}
 	return nil
 }
